@@ -1,6 +1,7 @@
 package props
 
 import (
+	"time"
 	"bytes"
 	"fmt"
 	"io"
@@ -28,6 +29,10 @@ type c07Call struct {
 	Dir     uint8  `json:"dir"`
 	Msg     []byte `json:"msg"`
 	Refusal bool   `json:"refusal,omitempty"` // bearer/direction deliberately out of range
+	// Empty: a degenerate call with an empty message (Msg nil or of length 0) - outside the property's domain
+	// ("every NAS message and every MAC input is non-empty"), so whatever it returns is not judged; it must
+	// return, and the calls after it are judged as always ("independent of earlier calls").
+	Empty bool `json:"empty_message,omitempty"`
 }
 type c07Case struct {
 	Calls []c07Call `json:"calls"`
@@ -123,6 +128,14 @@ func genC07Call(t *rapid.T, i int) c07Call {
 		Dir:    uint8(rapid.IntRange(0, 1).Draw(t, l+"dir")),
 	}
 	c.Msg = genPayload(t, genMsgLen(t, l+"len"), l+"msg")
+	if rapid.IntRange(0, 19).Draw(t, l+"empty") == 7 {
+		c.Empty = true
+		c.Msg = []byte{}
+		if rapid.Bool().Draw(t, l+"empty_nil") {
+			c.Msg = nil
+		}
+		return c
+	}
 	if rapid.IntRange(0, 39).Draw(t, l+"refuse") == 0 {
 		c.Refusal = true
 		if rapid.Bool().Draw(t, l+"refuse_b") {
@@ -145,7 +158,7 @@ func genC07(t *rapid.T) c07Case {
 		// "a function of the arguments only": calls that REPEAT the parameters of an earlier call of the
 		// sequence (same algorithm, key, COUNT, BEARER, DIRECTION — or only the same key / the same IV
 		// inputs) with another message of another length, in any order of lengths
-		if i > 0 && !call.Refusal {
+		if i > 0 && !call.Refusal && !call.Empty {
 			l := fmt.Sprintf("c%d_", i)
 			switch rapid.IntRange(0, 5).Draw(t, l+"reuse") {
 			case 0, 1, 2:
@@ -197,6 +210,16 @@ func withCanary(b []byte) ([]byte, func() bool) {
 func c07One(c c07Call) (key string, err error) {
 	var k [16]byte
 	copy(k[:], c.Key)
+	if c.Empty {
+		_, _ = ev.Guard(func() error {
+			if c.Alg[1] == 'E' {
+				return security.NASEncrypt(algID(c.Alg), k, c.Count, c.Bearer, c.Dir, c.Msg)
+			}
+			_, e := security.NASMacCalculate(algID(c.Alg), k, c.Count, c.Bearer, c.Dir, c.Msg)
+			return e
+		})
+		return "", nil
+	}
 	in, inOK := withCanary(c.Msg)
 	defer func() {
 		if err == nil && !inOK() {
@@ -285,6 +308,9 @@ func c07Oracle(c c07Case) ev.Verdict {
 		if call.Refusal {
 			cl = call.Alg + "/refusal"
 		}
+		if call.Empty {
+			cl = call.Alg + "/empty-message-before-later-calls"
+		}
 		v.Classes = append(v.Classes, cl)
 		if len(call.Msg) >= 256 {
 			v.Classes = append(v.Classes, "len>=256")
@@ -322,7 +348,13 @@ func c07Oracle(c c07Case) ev.Verdict {
 
 func TestC07_Algorithms(t *testing.T) {
 	r := ev.New(t, "C07", "TestC07_Algorithms")
-	ev.Run(t, r, genC07, c07Oracle)
+	ev.Run(t, r, genC07, func(c c07Case) ev.Verdict {
+		// a call that never returns (a lock left behind by an earlier call) is a call that does not deliver the
+		// 3GPP result; the bound is two orders of magnitude above the slowest sequence
+		stop := r.Watchdog(c, "a sequence of NEA/NIA calls", 30*time.Second)
+		defer stop()
+		return c07Oracle(c)
+	})
 }
 
 // TestC07_Lengths: message lengths 1..64 exhaustively for each algorithm (every residue
